@@ -140,6 +140,14 @@ def _x0(pos, lb, ub):
                 x[i] = min(x[i], u)
         elif pos == "mixed":
             x[i] = (u if fu else mid) if i % 2 == 0 else (l if fl else mid)
+        elif pos == "nearmixed":      # even coordinates close to (not on) the upper bound, odd ones central
+            x[i] = (u - 0.375 if fu else mid) if i % 2 == 0 else mid
+            if fl:
+                x[i] = max(x[i], l)
+        elif pos == "nearmixed2":     # all but the first coordinate close to the upper bound
+            x[i] = mid if i == 0 else (u - 0.375 if fu else mid)
+            if fl:
+                x[i] = max(x[i], l)
         elif pos == "mixed2":
             x[i] = (u if fu else mid) if i == 0 else mid
     return x
